@@ -215,6 +215,8 @@ fn dump_with(a: &EmmyLuaAnalysis, requires: &[String], probe: Option<(&str, &[St
             t.insert("alias".into(), json!(decl.get_alias_ref().map(|x| ty(a, x))));
         }
         t.insert("members".into(), members(a, &LuaMemberOwner::Type(id.clone())));
+        // member lookup on an instance of the type (own + inherited through the super edges): [key, type, declaring file]
+        t.insert("inherit".into(), inherit(a, &id));
         // generic header: parameter names with constraint / default, and the rendered head of the type
         let gp: Vec<Value> = db
             .get_type_index()
@@ -348,6 +350,25 @@ fn tree_dump(a: &EmmyLuaAnalysis) -> Value {
     let mut infos: Vec<String> = mi.get_module_infos().iter().map(|m| format!("{}={}", m.full_module_name, label(a, m.file_id))).collect();
     infos.sort();
     json!({"reachable": reachable, "names": names, "empty": empty, "bad_parent": bad_parent, "files_in_nodes": files_in_nodes, "infos": infos})
+}
+
+/// C10 (after seeded review): what `find_members` sees on an instance of the type, i.e. own members and the
+/// members of every ancestor reachable over `LuaTypeIndex::supers`.
+fn inherit(a: &EmmyLuaAnalysis, id: &LuaTypeDeclId) -> Value {
+    let Some(fid) = live_ids(a).into_iter().next() else { return json!([]) };
+    let Some(model) = a.compilation.get_semantic_model(fid) else { return json!([]) };
+    let mut out = Vec::new();
+    for info in model.get_member_infos(&LuaType::Ref(id.clone())).unwrap_or_default() {
+        let owner = match &info.property_owner_id {
+            Some(LuaSemanticDeclId::Member(m)) => label(a, m.file_id),
+            Some(other) => decl_label(a, other),
+            None => "-".to_string(),
+        };
+        out.push(json!([info.key.to_path(), ty(a, &info.typ), owner]));
+    }
+    out.sort_by_key(|v| v.to_string());
+    out.dedup();
+    json!(out)
 }
 
 fn members(a: &EmmyLuaAnalysis, owner: &LuaMemberOwner) -> Value {
@@ -551,9 +572,26 @@ fn model_diff(model: &Value, d: &Value, out: &mut Vec<Value>) {
     }
     if let Some(m) = model.get("supers").and_then(|x| x.as_object()) {
         for (cls, want) in m {
-            let got = d["types"].get(cls).map(|t| t["supers"].clone()).unwrap_or(json!([]));
+            // the spec's `supers` observable is the SET of super types (two files declaring the same edge give
+            // two entries of the vector; their number is judged through sizes/type.supers.items)
+            let mut gv: Vec<Value> = d["types"].get(cls).and_then(|t| t["supers"].as_array().cloned()).unwrap_or_default();
+            gv.dedup();
+            let got = json!(gv);
             if &got != want {
                 out.push(json!([format!("supers/{cls}"), want, got]));
+            }
+        }
+    }
+    if let Some(m) = model.get("inherit").and_then(|x| x.as_object()) {
+        // [key, declaring path] of every member an instance of the type has (own + inherited)
+        for (cls, want) in m {
+            let mut got: Vec<(String, String)> = d["types"].get(cls).and_then(|t| t["inherit"].as_array()).map(|v| v.iter().map(|s| (s[0].as_str().unwrap_or("").to_string(), s[2].as_str().unwrap_or("").to_string())).collect()).unwrap_or_default();
+            got.sort();
+            got.dedup();
+            let mut w: Vec<(String, String)> = want.as_array().map(|v| v.iter().map(|s| (s[0].as_str().unwrap_or("").to_string(), s[1].as_str().unwrap_or("").to_string())).collect()).unwrap_or_default();
+            w.sort();
+            if got != w {
+                out.push(json!([format!("inherit/{cls}"), w, got]));
             }
         }
     }
